@@ -32,11 +32,20 @@ def sexpDepth (s : String) : Nat :=
   let rec go : List String → List Bool → Nat → Nat
     | [], _, m => m
     | "(" :: hd :: t, st, m =>
-      let c := hd == "arr" || hd == "dict"
-      let st' := c :: st
-      go t st' (Nat.max m (st'.filter id).length)
+      -- a node at level (#enclosing containers + 1)
+      go t ((hd == "arr" || hd == "dict") :: st) (Nat.max m ((st.filter id).length + 1))
     | ")" :: t, st, m => go t st.tail m
-    | _ :: t, st, m => go t st m
-  1 + go toks [] 0
+    | _ :: t, st, m => go t st (Nat.max m ((st.filter id).length + 1))
+  go toks [] 0
+
+/-- does a canonical S-expression contain a dictionary entry whose value is null? -/
+def sexpHasNullEntry (s : String) : Bool :=
+  let toks := (s.splitOn " ").filter (· ≠ "")
+  let isKey (t : String) : Bool :=
+    t.startsWith "(" && (let k := (t.drop 1).toString; k == "-" || (k.length % 2 == 0 && k.all fun c => c.isDigit || ('a' ≤ c && c ≤ 'f')))
+  let rec go : List String → Bool
+    | a :: b :: t => (isKey a && b.startsWith "null)") || go (b :: t)
+    | _ => false
+  go toks
 
 end Driver
